@@ -17,6 +17,10 @@ def load_checks():
     sys.path.insert(0, os.path.join(ROOT, "checks"))
     out = {}
     for f in sorted(glob.glob(os.path.join(ROOT, "checks", "*.py"))):
+        src = open(f).read()
+        if "/verif/work/" in src or '"work"' in src and "_PRIV" in src:
+            # still bound to a builder's private spec copy (not committed): not claimable yet
+            continue
         m = importlib.import_module(os.path.basename(f)[:-3])
         for pid, d in getattr(m, "MANIFEST", {}).items():
             out[pid] = (d["category"], d["technique"], d["text"], d["note"], d["design_ref"])
